@@ -198,6 +198,14 @@ theorem uncatchable_invisible_stackOverflow (entry : Entry) (chain : List Frame)
     (.stackOverflow id) .thrower rfl rfl hd
   exact ⟨⟨e', a, b⟩, c, d⟩
 
+/-- UNCONDITIONAL (every chain, every entry, also through native frames that drop the error they got): no catch block,
+no async rejection and no iterator return() ever observes an uncatchable error; the only log entries are finally
+blocks of frames that completed NORMALLY (before a job frame, or outside a native frame that dropped the error). -/
+theorem uncatchable_never_observed (entry : Entry) (chain : List Frame) (p : Payload) (e : GoErr) (o : StackTop)
+    (hp : p.flow = .panic (.goErr e) o) (he : e.isUncatchable = true) :
+    ∀ l ∈ (hostRun entry chain p).log, l.kind = .fin :=
+  hostRun_quiet entry chain p (by rw [hp]; exact he)
+
 /-- The interrupt flag is sticky: even a native frame that DROPS the error it got from the Callable (and any
 number of them, anywhere in the chain) cannot hide a real interrupt from a host that entered through RunProgram:
 vm.run raises it again at the next script instruction.  The host gets an error carrying the *InterruptedError, and
@@ -452,6 +460,76 @@ theorem stack_top_of_native_panic (entry : Entry) (chain : List Frame) (v : JsVa
         simp [indexed, lastRaise, stepTop, this, ih']
       | _ => simp [indexed, lastRaise, stepTop, ih', hnt]
   rw [(stack_top_eq_last_raise_site entry chain _ v hsw hrw hu hn).2 rfl, hnt, hl 0 chain hr]
+
+/-! ### Runtime.Try as the host's entry -/
+
+/-- Through Runtime.Try the host gets the very *Exception: value `v`, top = last raise site (every chain that lets the
+value through, no job frame). -/
+theorem try_entry_exception (chain : List Frame) (p : Payload) (v : JsVal)
+    (hsw : ∀ f ∈ chain, f.swallows = false) (hrw : ∀ f ∈ chain, f.rewraps = false)
+    (hu : v.goErrValue = none ∨ ∀ f ∈ chain, f.unwraps = false)
+    (hn : hasSplit chain = false) :
+    (p = .jsThrow v → (hostRunTry chain p).host =
+        .err (.exc ⟨v, lastRaise v (throwExec .thrower v).top (indexed 0 chain)⟩)) ∧
+    (p = .natPanicVal v → (hostRunTry chain p).host =
+        .err (.exc ⟨v, lastRaise v (nativeTop v) (indexed 0 chain)⟩)) := by
+  have key : ∀ t, TopIs v t p.flow → (hostRunTry chain p).host = .err (.exc ⟨v, lastRaise v t (indexed 0 chain)⟩) := by
+    intro t hp
+    have hpr := (splitSegs_snd_nil_iff chain 0).mpr hn
+    have hfst := splitSegs_fst_of_nosplit chain 0 hn
+    simp only [hostRunTry, hpr, hfst, segInner, List.isEmpty_nil, ↓reduceIte]
+    have c1 := evalSeg_topIs (indexed 0 chain) p.isJS
+      (fun q hq => hsw _ (indexed_mem chain 0 q hq)) (fun q hq => hrw _ (indexed_mem chain 0 q hq))
+      (by rcases hu with h | h
+          · exact Or.inl h
+          · exact Or.inr (fun q hq => h _ (indexed_mem chain 0 q hq))) hp
+    rcases topIs_cases c1 with ⟨o, h⟩ | ⟨h, ht⟩
+    · rw [h]; cases headIsJS (indexed 0 chain) p.isJS <;> simp [invoke]
+    · rw [h, ht]
+      cases hs : v.ownStack <;> cases headIsJS (indexed 0 chain) p.isJS <;>
+        simp [invoke, jsCall, vmTry, handleThrow, handleThrowLoop, exceptionFromValue, nativeTop, hs]
+  constructor
+  · rintro rfl; exact key _ (by simp [Payload.flow, TopIs, throwExec])
+  · rintro rfl; exact key _ (by simp [Payload.flow, TopIs])
+
+/-- Runtime.Try does not turn uncatchable errors into returned errors: an interrupt / stack overflow (and every
+foreign panic) leaves Try as a Go panic carrying that error; no catch, finally or iterator return() ran. -/
+theorem try_entry_repanics_unclassifiable (chain : List Frame) (p : Payload) (x : Pv) (o : StackTop)
+    (hp : p.flow = .panic x o) (hx : x.unclassifiable = true)
+    (hd : (∀ f ∈ chain, f.dropsErrors = false) ∨ asUncatchableException x = none)
+    (hn : hasSplit chain = false) :
+    ∃ x', Unc x x' ∧ (hostRunTry chain p).host = .panic x' ∧ (hostRunTry chain p).log = [] := by
+  have hpr := (splitSegs_snd_nil_iff chain 0).mpr hn
+  have hfst := splitSegs_fst_of_nosplit chain 0 hn
+  obtain ⟨x', o', he, hu, _⟩ := evalSeg_unclassifiable (indexed 0 chain) p.isJS hx
+    (by rcases hd with h | h
+        · exact Or.inl (fun q hq => h _ (indexed_mem chain 0 q hq))
+        · exact Or.inr h) o
+  refine ⟨x', hu, ?_, ?_⟩
+  · simp only [hostRunTry, hpr, hfst, segInner, List.isEmpty_nil, ↓reduceIte, hp, he,
+      vmTry_invoke_unclassifiable _ hu.1]
+  · simp only [hostRunTry, hpr, hfst, segInner, List.isEmpty_nil, ↓reduceIte, hp, he]
+
+/-- Runtime.Try never drains the job queue: with a job frame in the chain the synchronous part completes normally, the
+host gets no error, and nothing of the deferred part runs (no rejection, only the finally blocks of the synchronous
+part). -/
+theorem try_entry_does_not_run_jobs (chain : List Frame) (p : Payload) (hs : hasSplit chain = true) :
+    (hostRunTry chain p).host = .ok ∧ (hostRunTry chain p).rej = [] ∧
+    ∀ l ∈ (hostRunTry chain p).log, l.kind = .fin := by
+  have hne : (splitSegs (indexed 0 chain)).2 ≠ [] := by
+    intro h
+    have := (splitSegs_snd_nil_iff chain 0).mp h
+    rw [this] at hs; cases hs
+  cases hss : (splitSegs (indexed 0 chain)).2 with
+  | nil => exact absurd hss hne
+  | cons s1 tl =>
+    have hn := evalSeg_normal (splitSegs (indexed 0 chain)).1 true
+    refine ⟨?_, rfl, ?_⟩
+    · simp only [hostRunTry, hss, segInner, List.isEmpty_cons, Bool.false_eq_true, ↓reduceIte, hn]
+      cases headIsJS (splitSegs (indexed 0 chain)).1 true <;> simp [invoke]
+    · intro l hl
+      simp only [hostRunTry, hss, segInner, List.isEmpty_cons, Bool.false_eq_true, ↓reduceIte] at hl
+      exact evalSeg_normal_log _ true l hl
 
 /-! ### Exception.Error() -/
 
